@@ -4,7 +4,8 @@ from props import loop_common as L
 DRV = "loop"
 CRATE = "hx-loop"
 
-RULE = ("hx-loop runs the real bench_loop_threaded (Bencher::with_inputs(..).bench_refs) under the per-thread virtual "
+RULE = ("[options reach the loop as the runner builds them: every case places each of sample_count, sample_size, min_time, max_time, skip_ext_time on one of four layers (runner, bench, group, outer group), optionally with losing values further out, and the harness merges the layers through the real BenchOptions::overwrite; the model takes the resolved values] "
+        "hx-loop runs the real bench_loop_threaded (Bencher::with_inputs(..).bench_refs) under the per-thread virtual "
         "clock: random (sample_count incl. unset/0/< T, sample_size incl. 0/unset, T in 1..4, bench/test mode, counter on/off, "
         "overheads, timer frequency) x scripted generator/call/drop costs (constant, jittered, growing, per-thread skew, "
         "per-thread clock offsets); a second stream aims min_time/max_time at the elapsed time of some round +-1 tick so that "
@@ -13,7 +14,8 @@ RULE = ("hx-loop runs the real bench_loop_threaded (Bencher::with_inputs(..).ben
         "every round, recorded durations, final sample size, Stats.sample_count/iter_count and the timestamp log; the log "
         "drives the extracted model; the extracted c03_sb is evaluated on the implementation's output. End to end: a real "
         "#[divan::bench] binary (hx-loop-e2e) is run through Divan::main with sample_count/sample_size/threads given on the command "
-        "line, in DIVAN_* variables or in bench/bench_group attributes (1-4 thread counts per benchmark, n < T, default n, test mode); the "
+        "line, in DIVAN_* variables, by builder calls before config_with_args() (alone, or with one of the two overridden by the environment; builder n = 0) "
+        "or in bench/bench_group attributes, incl. attribute/group-level min_time = 0 and max_time = 0 (1-4 thread counts per benchmark, n < T, default n, test mode); the "
         "samples and iters cells of every t=N row and the per-thread call counts logged by the benchmark body are compared with the model "
         "run for each thread count, and the extracted c03_e2e_sb (T*ceil(n/T), that times s, s*ceil(n/T) calls per thread) is evaluated on them. "
         "Non-trivial = implementation and model agree on an `ok` line with at least one round; distinct by input line.")
@@ -59,7 +61,7 @@ def streams(tier, rng):
         if base["n"] == "-" or int(base["n"]) > 14:
             base["n"] = rng.randrange(1, 12)
         aimed.extend(L.aim_budget(rng, base, rng.choice(["max", "max", "min"])))
-    e2e = L.e2e_cases(rng, 70 if not big else 400)
+    e2e = L.e2e_cases(rng, 95 if not big else 400)
     cut = L.tuned_cut_cases(rng, 150 if not big else 3000)
     return [
         L.make_stream("c03-corpus", "c03", L.corpus("C03")),
